@@ -1,4 +1,5 @@
 import Sif.Proofs.C05
+import Sif.Proofs.C06
 /-
   C05 — bridge prophecies need the whitelisted-power threshold and are final.
   Property theorems only (helper lemmas: Sif/Proofs/C05.lean).  Quantifiers: every validator set, every
@@ -7,7 +8,7 @@ import Sif.Proofs.C05
   map `ClaimValidators` (any function that returns a permutation of its argument).
 -/
 namespace Sif.Props.C05
-open Sif.Oracle Sif.Spec.C05 Sif.Generated
+open Sif.Oracle Sif.EthBridge Sif.Spec.C05 Sif.Generated
 
 /-! ### facts regenerated from the source on every run -/
 
@@ -206,6 +207,23 @@ theorem other_claims_do_not_touch (ord : List Group → List Group) (vals : List
     exact getD_id _ _
   rw [this]; exact hne
 
+/-- Finality at the level of the bridge: a claim message about a prophecy that is not pending fails, and the whole
+    state — the prophecy, every other prophecy, every balance, the supply — is exactly as before. -/
+theorem final_claim_changes_nothing (ord : List Group → List Group) (vals : List Validator) (s : BState) (m : ClaimMsg)
+    (hs : statusOf s.oracle (claimOf m).id ≠ .pending) :
+    ∃ f, deliver ord vals s (.claim m) = (s, .failed f) := by
+  rcases deliver_claim_cases ord vals s m with ⟨f, hd⟩ | ⟨s', status, hc, hd⟩
+  · exact ⟨f, hd⟩
+  · obtain ⟨o, fin, hp, _⟩ := createClaim_ok hc
+    exact (hs (processClaim_status hp).1).elim
+
+/-- Finality over histories: once a prophecy is successful or failed, no history of messages (claims, locks,
+    burns, whitelist edits, …) and validator-set changes alters its status, its final claim or its tally. -/
+theorem final_is_final_history (ord : List Group → List Group) (steps : List Step) (w : World) (id : String)
+    (hs : statusOf w.s.oracle id ≠ .pending) :
+    getProphecy (run ord w steps).s.oracle.prophecies id = getProphecy w.s.oracle.prophecies id :=
+  (run_nonpending_stable ord steps w id hs).1
+
 /-! ### independence of the map iteration order -/
 
 /-- `processCompletion` (status and final claim) does not depend on the order in which the range over the Go
@@ -238,6 +256,26 @@ theorem processClaim_perm_invariant (ord₁ ord₂ : List Group → List Group) 
               rw [tally_perm_invariant ord₁ ord₂ h₁ h₂ vals st.whitelist _ hv hq]
     · simp [hw, ha]
   · simp [hw]
+
+/-- …and neither does any delivered bridge message: the state after it and what it reports (status, event,
+    error class) are the same for any two iteration orders. -/
+theorem deliver_perm_invariant (ord₁ ord₂ : List Group → List Group) (h₁ : ∀ l, (ord₁ l).Perm l) (h₂ : ∀ l, (ord₂ l).Perm l)
+    (vals : List Validator) (s : BState) (m : Msg) (hv : ValsWF vals) (hwf : OStateWF s.oracle) :
+    deliver ord₁ vals s m = deliver ord₂ vals s m := by
+  cases m with
+  | claim cm =>
+    have hc : createClaim ord₁ vals s cm = createClaim ord₂ vals s cm := by
+      unfold createClaim
+      rw [processClaim_perm_invariant ord₁ ord₂ h₁ h₂ vals s.oracle (claimOf cm) hv hwf]
+    unfold deliver
+    simp only [handle, hc]
+  | lock pm => rfl
+  | burn pm => rfl
+  | pause a p => rfl
+  | blacklist a l => rfl
+  | cethReceiver a r => rfl
+  | rescue a r n => rfl
+  | whitelist a op v => rfl
 
 /-- non-vacuity of the order hypotheses: the identity and list reversal are permutation-valued -/
 example : (∀ l : List Group, (id l).Perm l) ∧ (∀ l : List Group, (l.reverse).Perm l) :=
